@@ -463,6 +463,17 @@ func (w *World) Apply(st Step) (problem string, inconclusive bool) {
 		if !settle() {
 			return
 		}
+	case "restartnode":
+		i := st.Node % len(w.Cl.Nodes)
+		if !w.Cl.Nodes[i].Down {
+			return "", false
+		}
+		if _, err := w.Cl.RestartNode(i); err != nil {
+			return err.Error(), true
+		}
+		if !settle() {
+			return
+		}
 	case "gossip1":
 		// manual gossip mode: deliver one collected broadcast (index st.C modulo pending) to node st.Node
 		w.Cl.CollectGossip()
